@@ -11,6 +11,7 @@ LEAN_DIR = os.path.join(VERIF, "lean")
 DRIVER = os.path.join(LEAN_DIR, ".lake", "build", "bin", "dsdriver")
 GENDRIVER = os.path.join(LEAN_DIR, ".lake", "build", "bin", "gendriver")
 GENBDRIVER = os.path.join(LEAN_DIR, ".lake", "build", "bin", "genbdriver")
+GENMDRIVER = os.path.join(LEAN_DIR, ".lake", "build", "bin", "genmdriver")
 # Ties: parts of the source that are TRANSLATED to Lean on every run (lean/Gen*, regenerated from the repository) and proved equal to the model
 # (lean/Tie*).  Each tie is its own lake library + audit file + driver, so a source change that breaks one translation only affects the
 # properties registered for that tie.
@@ -30,6 +31,13 @@ TIES = {
                        ("C06", ["DsProofs.TieB.TIEB_C06"]),
                        ("C08", ["DsProofs.TieB.TIEB_brute_model"]),
                        ("C15", ["DsProofs.TieB.TIEB_brute_model", "DsProofs.TieB.TIEB_C03_uncaught"])]),
+    "mcwalk": dict(translator="translate_mc", targets=["GenM", "TieM", "genmdriver"], audit="AuditTieM.lean", root="TieM", driver=GENMDRIVER,
+                   modules=["GenM.Walk", "TieM.Properties"],
+                   what="one permutation walk of ShapleyImportance._shapley_montecarlo: per-iteration resets + inner loop (harness/translate_mc.py -> lean/GenM/Walk.lean)",
+                   reg=[("C04", ["DsProofs.TieM.TIEM_walk", "DsProofs.TieM.TIEM_column", "DsProofs.TieM.TIEM_C04_marginals"]),
+                        ("C16", ["DsProofs.TieM.TIEM_walk", "DsProofs.TieM.TIEM_column"]),
+                        ("C06", ["DsProofs.TieM.TIEM_column"]),
+                        ("C15", ["DsProofs.TieM.TIEM_walk"])]),
     "joint": dict(translator="translate_joint", targets=["GenJ", "TieJ"], audit="AuditTieJ.lean", root="TieJ", driver=None,
                   modules=["GenJ.Joint", "TieJ.Properties"],
                   what="JointUtility.null_score / mean_score / elementwise_score / elementwise_null_score / __call__ (harness/translate_joint.py -> lean/GenJ/Joint.lean)",
@@ -84,7 +92,7 @@ def build(targets=("Ds", "DsProofs", "dsdriver"), timeout=3000):
 
 def _closure():
     """Lean files of this project reachable from the build roots (Ds, DsProofs, Driver, Audit)"""
-    seen, todo = set(), ["Ds", "DsProofs", "Driver", "Audit", "Gen", "Tie", "GenDriver", "AuditTie", "GenB", "TieB", "GenBDriver", "AuditTieB", "GenJ", "TieJ", "AuditTieJ"]
+    seen, todo = set(), ["Ds", "DsProofs", "Driver", "Audit", "Gen", "Tie", "GenDriver", "AuditTie", "GenB", "TieB", "GenBDriver", "AuditTieB", "GenJ", "TieJ", "AuditTieJ", "GenM", "TieM", "GenMDriver", "AuditTieM"]
     while todo:
         m = todo.pop()
         path = os.path.join(LEAN_DIR, m.replace(".", "/") + ".lean")
@@ -271,4 +279,10 @@ class GenDriver(Driver):
 class GenBDriver(Driver):
     def __init__(self):
         self.p = subprocess.Popen([GENBDRIVER], stdin=subprocess.PIPE, stdout=subprocess.PIPE, text=True, bufsize=1)
+        self.n = 0
+
+
+class GenMDriver(Driver):
+    def __init__(self):
+        self.p = subprocess.Popen([GENMDRIVER], stdin=subprocess.PIPE, stdout=subprocess.PIPE, text=True, bufsize=1)
         self.n = 0
